@@ -38,10 +38,10 @@ Print Assumptions facts_any_holder_unique.
 Theorem model_functions_are_table_programs : forall z v a f,
   run_member z model_table MReset a f = Some (m_reset f) /\
   run_member z model_table MDcsin a f = Some (m_default_construct_storage_if_needed f) /\
-  run_member z model_table MEmplace (ret v) f = Some (m_emplace v f) /\
-  run_member z model_table MAssignValue (ret v) f = Some (m_assign_value v f) /\
-  run_member z model_table MCtorValue (ret v) f = Some (m_ctor_value v f) /\
-  run_member z model_table MMakeOptional (ret v) f = Some (m_emplace v f) /\
+  run_member z model_table MEmplace (vval v) f = Some (m_emplace v f) /\
+  run_member z model_table MAssignValue (vval v) f = Some (m_assign_value v f) /\
+  run_member z model_table MCtorValue (vval v) f = Some (m_ctor_value v f) /\
+  run_member z model_table MMakeOptional (vval v) f = Some (m_emplace v f) /\
   run_member z model_table MCtorCopy a f = Some (m_ctor_copy (fixed_cfg z) f) /\
   run_member z model_table MCtorConvCopy a f = Some (m_ctor_copy (fixed_cfg z) f) /\
   run_member z model_table MCtorMove a f = Some (m_ctor_move (fixed_cfg z) f) /\
